@@ -10,7 +10,7 @@ trap 'git -C /repo worktree remove --force "$wt" >/dev/null 2>&1 || true' EXIT
 git -C "$wt" apply "$patch"
 cd "$(dirname "$0")/.."
 for p in "$@"; do
-  out=$(VERIF_REPO="$wt" VERIF_REPLAY_DIR="$wt/.replays" VERIF_MAX_MINIMISED=1 VERIF_MIN_BUDGET=40 ./check "$p" --no-evidence 2>&1 || true)
+  out=$(VERIF_REPO="$wt" VERIF_REPLAY_DIR="$wt/.replays" VERIF_MAX_MINIMISED=1 VERIF_MIN_BUDGET=40 VERIF_STOP_AT_FIRST=1 ./check "$p" --no-evidence 2>&1 || true)
   if echo "$out" | grep -q "^VIOLATION"; then
     echo "CAUGHT by $p: $(echo "$out" | grep -c '^VIOLATION') signature(s): $(echo "$out" | grep -m3 'signature:' | tr '\n' ' ' | cut -c1-300)"
     if [ -n "$SEED_KEEP_REPLAY" ]; then f=$(echo "$out" | grep -m1 '^VIOLATION' | sed 's/.*replay=//'); [ -f "$f" ] && cp "$f" "$SEED_KEEP_REPLAY/replay-$p.json"; fi
